@@ -147,6 +147,14 @@ func (ex *Exec) invoke(st *State, frID int, instr ssa.Instruction, cc *ssa.CallC
 		return
 	}
 	ex.safe(st, Neq(iv.Tag, IntT(0)), instr, "method call on nil interface")
+	// a contract on the static interface type of the receiver (e.g. hash.Hash64.Write) is more
+	// specific than the one on the interface that declares the method (io.Writer.Write)
+	if n := namedOf(cc.Value.Type()); n != nil {
+		sk := typeKey(n) + "." + cc.Method.Name()
+		if _, ok := ex.ctx.specs.Funcs[sk]; ok {
+			mkey = sk
+		}
+	}
 	if fc := ex.ctx.specs.Funcs[mkey]; fc != nil {
 		if fc.CallsArg && len(args) > 0 {
 			if c, ok := args[len(args)-1].(*ClosureV); ok {
